@@ -298,7 +298,7 @@ def plan(cname, tier):
         if tier == "thorough" or label in SUB:
             out.append((label, "ctor", "fresh"))
             out.append((label, "trait_set", "fresh"))
-            if not c.owner_attrs:
+            if not c.owner_attrs and "proto" not in c.no_routes:
                 out.append((label, "proto", "fresh"))
             if c.shadow is not None or tier == "thorough":
                 out.append((label, "trait_setq", "fresh"))
